@@ -32,6 +32,7 @@ func main() {
 	points := flag.String("points", "", "comma-separated function names to add yield points to")
 	nogo := flag.Bool("nogo", false, "do not rewrite go statements")
 	nosync := flag.Bool("nosync", false, "do not redirect the sync and sync/atomic imports")
+	sema := flag.Bool("sema", false, "rewrite syncutil.NewChanSemaphore(n) into the modelled sync.NewSemaphore(n) (needs the sync redirect)")
 	submit := flag.Bool("submit", false, "rewrite X.Submit(f) worker-pool calls into xsched.SubmitTask(label, f)")
 	flag.Parse()
 	fset := token.NewFileSet()
@@ -202,6 +203,27 @@ func main() {
 		}
 
 		return out
+	}
+
+	if *sema {
+		// Channel semaphores become modelled ones: a task blocked in a real
+		// channel operation would stall the cooperative scheduler.
+		ast.Inspect(f, func(n ast.Node) bool {
+			call, ok := n.(*ast.CallExpr)
+			if !ok {
+				return true
+			}
+			se, ok := call.Fun.(*ast.SelectorExpr)
+			if !ok || se.Sel.Name != "NewChanSemaphore" {
+				return true
+			}
+			if x, isID := se.X.(*ast.Ident); isID && x.Name == "syncutil" {
+				x.Name = "sync"
+				se.Sel.Name = "NewSemaphore"
+			}
+
+			return true
+		})
 	}
 
 	if *submit {
